@@ -39,7 +39,10 @@ def body(c):
     with open(cpath, "w") as f:
         for x in cases:
             f.write(json.dumps(x) + "\n")
-    _, out = c.vh(["c03", "replay", cpath], timeout=3000)
+    out = c.vh_abortable(["c03", "replay", cpath], "c03:abort", "running the specification's cases", timeout=3000)
+    if out is None:
+        c.finish_kw = dict(exhaustive=False, rule="the code under test killed the process on one of the specification's cases; the run ended there")
+        return
     got = [json.loads(l)["got"] for l in out.split("\n") if l.strip()]
     if len(got) != len(cases):
         raise ToolError("replay returned %d results for %d cases" % (len(got), len(cases)))
@@ -61,7 +64,9 @@ def body(c):
     c.sample({"accepted by both": acc[0] if acc else None})
     runs = 300 if q else 8000
     tpath = os.path.join(c.work, "trace.ndjson")
-    c.vh(["c03", "record", runs, tpath], timeout=3000)
+    if c.vh_abortable(["c03", "record", runs, tpath], "c03:abort", "running generated and mutated inputs", timeout=3000) is None:
+        c.finish_kw = dict(exhaustive=False, rule="the code under test killed the process on a generated input; the run ended there")
+        return
     evs = read_ndjson(tpath)
     by_id = {}
     for e in evs: by_id.setdefault(e["id"], {})[e["ev"]] = e
